@@ -159,6 +159,27 @@ def one_tree(tspec, relative_style, acc, rnd, only_mp=None):
             acc.evaluated()
             acc.count("include_mode_scans")
             attribute_scan_findings(si, MAPPING, c3)
+        if rnd.random() < 0.5 or only_mp is not None:
+            from pathlib import Path
+
+            mp = rnd.choice(dirs) if only_mp is None else only_mp
+            mp_abs = os.path.join(root, mp) if mp else root
+            get_evaluable_architecture(root, mp_abs)
+            plain = HUB.scan_events[-1]
+            for label, (r_arg, m_arg) in {"trailing-slash": (root + "/", mp_abs + "/"), "pathlib": (Path(root), Path(mp_abs)), "mixed": (root + "/", Path(mp_abs))}.items():
+                c5 = dict(case, mp=mp, spelling=label)
+                HUB.case = c5
+                try:
+                    get_evaluable_architecture(r_arg, m_arg)
+                    sv = HUB.scan_events[-1]
+                    same = sv.state == plain.state
+                except Exception as e:  # noqa: BLE001
+                    same, sv = False, None
+                    HUB.violation("C04", f"path-spelling:{label}:raises-{type(e).__name__}", f"root_path/module_path given as {label} raised {e}", {"mp": mp})
+                acc.evaluated()
+                acc.count("path_spelling_variants")
+                if sv is not None and not same:
+                    HUB.violation("C04", f"path-spelling:{label}", f"the same directories given as {label} build a different architecture", {"mp": mp, "nodes_diff": sorted(sv.nodes ^ plain.nodes), "imports_diff": sorted(sv.imps ^ plain.imps)})
         dirs_nonroot = [d for d in dirs if d]
         if dirs_nonroot and (rnd.random() < 0.4 or only_mp is not None):
             d = rnd.choice(dirs_nonroot)
